@@ -157,11 +157,19 @@ class DeviceInfoCache:
             del self.cache[cache_id]
             self.cache[device_info.deviceIdentifier] = device_info
 
+        elif (cache_id is None) and (device_info.deviceIdentifier is not None):
+            if _debug: DeviceInfoCache._debug("    - new device identifier")
+            self.cache[device_info.deviceIdentifier] = device_info
+
         if (cache_address is not None) and (device_info.address != cache_address):
             if _debug: DeviceInfoCache._debug("    - device address updated")
 
             # remove the old reference, add the new one
             del self.cache[cache_address]
+            self.cache[device_info.address] = device_info
+
+        elif (cache_address is None) and (device_info.address is not None):
+            if _debug: DeviceInfoCache._debug("    - new device address")
             self.cache[device_info.address] = device_info
 
         # update the keys
